@@ -397,4 +397,7 @@ def config_names_c09():
 def obligations():
     from tx.p_c05 import share
     from tx import p_c10
-    return share("declared-kinds/", [o for o in p_c10.positions() if "same name" in o["id"]]) + truncation() + kinds_disjoint() + generated_identifiers() + variable_positions() + positions_through_rules() + reserved_values() + initializer_skips_generated() + initializer_kinds() + initializer_per_array() + initializer_positions() + temporaries_are_generated_names() + config_names_c09() + kinds_in_declarations() + next_names()
+    # each READ target receives its own datum: a scalar and an array element of one name are different receivers (shared with C03 / C05)
+    from tx.p_c03 import empty_item_protocol
+    from tx.p_c05 import read_targets_through_filter
+    return share("read/", empty_item_protocol() + read_targets_through_filter()) + share("declared-kinds/", [o for o in p_c10.positions() if "same name" in o["id"]]) + truncation() + kinds_disjoint() + generated_identifiers() + variable_positions() + positions_through_rules() + reserved_values() + initializer_skips_generated() + initializer_kinds() + initializer_per_array() + initializer_positions() + temporaries_are_generated_names() + config_names_c09() + kinds_in_declarations() + next_names()
